@@ -23,7 +23,7 @@ for ctr in glob.glob('/verif/units/*.ctr'):
 print(' '.join(sorted(props)))
 PY
 )
-  RES=$(echo $PROPS | tr ' ' '\n' | xargs -P 5 -I{} sh -c './check {} > /tmp/harmless_{}.out 2>&1; echo "{}=$?"' | sort | tr '\n' ' ')
+  RES=$(echo $PROPS | tr ' ' '\n' | xargs -P ${HP:-5} -I{} sh -c './check {} > /tmp/harmless_{}.out 2>&1; echo "{}=$?"' | sort | tr '\n' ' ')
   for P in $PROPS; do
     if grep -q '^VIOLATION' /tmp/harmless_$P.out; then echo "  FALSE-ALARM? $D $P: $(grep '^VIOLATION' /tmp/harmless_$P.out | head -2)"; fi
     if ! grep -q '^PASS' /tmp/harmless_$P.out; then grep '^UNDECIDED' /tmp/harmless_$P.out | head -3 | cut -c1-300 | sed 's/^/    /'; fi
